@@ -1,6 +1,7 @@
 package main
 
 import (
+	"fmt"
 	"go/types"
 	"strings"
 
@@ -18,6 +19,9 @@ func isIntrinsic(key string) bool {
 		return true
 	}
 	if strings.HasPrefix(key, "sync.") || strings.HasPrefix(key, "atomic.") {
+		return true
+	}
+	if isCallbackIteration(key) {
 		return true
 	}
 	switch key {
@@ -52,6 +56,9 @@ func (e *Engine) intrinsic(fr *Frame, st *State, ins ssa.Instruction, key string
 		return Val{}, false // an explicit spec overrides
 	}
 	unit := Val{Fs: []Val{}}
+	if isCallbackIteration(key) && len(args) >= 2 && args[len(args)-1].Clo != nil {
+		return e.callbackIteration(fr, st, ins, key, args), true
+	}
 	if key == "sync.(*Map).Range" && len(args) == 2 && args[1].Clo != nil {
 		// the callback runs an unknown number of times: forget everything it may write
 		cfn := args[1].Clo.Fn.(*ssa.Function)
@@ -227,4 +234,86 @@ func itoa(n int) string {
 		n /= 10
 	}
 	return s
+}
+
+// isCallbackIteration: library calls that run a callback an unknown number of times over a collection.
+func isCallbackIteration(key string) bool {
+	switch key {
+	case "btree.(*BTree).Ascend", "btree.(*BTree).AscendGreaterOrEqual", "btree.(*BTree).AscendLessThan", "btree.(*BTree).AscendRange",
+		"btree.(*BTree).Descend", "btree.(*BTree).DescendLessOrEqual", "btree.(*BTree).DescendGreaterThan", "btree.(*BTree).DescendRange":
+		return true
+	}
+	return false
+}
+
+// callbackIteration models `coll.Ascend...(pivot, f)`: f runs an unknown number of times on arbitrary non-nil items.
+// With iteration invariants on the closure's contract (`closure N` + `invariant`), they are proved at the call and
+// after one arbitrary run of f from any state satisfying them, and assumed afterwards; without them everything f
+// may write is forgotten. The items passed and their order are not modelled (nothing about them may be assumed).
+func (e *Engine) callbackIteration(fr *Frame, st *State, ins ssa.Instruction, key string, args []Val) Val {
+	clo := args[len(args)-1].Clo
+	cfn := clo.Fn.(*ssa.Function)
+	cc := e.closureContract(cfn)
+	fnKey := funcKey(fr.fn)
+	envOf := func(s *State) *SpecEnv {
+		env := e.invEnv(fr, s, nil)
+		return env
+	}
+	var invs []*Clause
+	if cc != nil {
+		invs = cc.IterInvs
+	}
+	for i, inv := range invs {
+		g := envOf(st).evalBool(inv.E)
+		e.emit(&Obligation{Kind: "inv-init", Fn: fnKey, Label: fmt.Sprintf("callback-%s:%s", shortName(key), orStr(inv.Label, fmt.Sprint(i+1))),
+			PC: st.pc, Goal: g, Src: inv.Src, Line: inv.Line, Trace: st.trace})
+	}
+	// forget what the callback may write
+	ws := newWriteSet()
+	sub := &Frame{fn: cfn, cellOf: map[*ssa.Alloc]int{}, free: clo.Bindings}
+	e.blocksWrites(sub, cfn.Blocks, ws, fr.depth+1, map[*ssa.Function]bool{cfn: true})
+	if ws.all {
+		st.havocAll()
+	}
+	for k := range ws.keys {
+		st.havocKey(k)
+	}
+	for c := range ws.cells {
+		if old, ok := st.cells[c]; ok {
+			st.cells[c] = e.havocVal(st, old, e.cellType(fr, c))
+		}
+	}
+	st.rebaseAlloc()
+	for _, inv := range invs {
+		st.assume(envOf(st).evalBool(inv.E))
+	}
+	if len(invs) > 0 {
+		// one arbitrary run of the callback from this state must re-establish the invariants
+		body := st.clone()
+		var cargs []Val
+		for i := 0; i < cfn.Signature.Params().Len(); i++ {
+			pt := cfn.Signature.Params().At(i).Type()
+			v := body.freshVal("item", pt)
+			if kindOf(pt) == kIface {
+				body.assume(Ne(v.Fs[0].T, IntLit(0)))
+			}
+			cargs = append(cargs, v)
+		}
+		nf := e.newFrame(cfn, fr, cc)
+		nf.free = clo.Bindings
+		outs := e.execFunc(nf, body, cargs)
+		for _, o := range outs {
+			if o.panics || o.st.dead {
+				continue
+			}
+			for i, inv := range invs {
+				g := envOf(o.st).evalBool(inv.E)
+				e.emit(&Obligation{Kind: "inv-step", Fn: fnKey, Label: fmt.Sprintf("callback-%s:%s", shortName(key), orStr(inv.Label, fmt.Sprint(i+1))),
+					PC: o.st.pc, Goal: g, Src: inv.Src, Line: inv.Line, Trace: o.st.trace})
+			}
+		}
+	} else {
+		e.note("callback of " + key + " in " + fnKey + " has no iteration invariant: everything it may write is forgotten")
+	}
+	return Val{Fs: []Val{}}
 }
